@@ -537,6 +537,8 @@ type stream struct {
 	// owned by serverConn's serve loop:
 	bodyBytes        int64   // body bytes seen so far
 	declBodyBytes    int64   // or -1 if undeclared
+	bodyRead         int64   // body bytes the handler has reported as read (noteBodyRead)
+	connRefundLeft   int64   // once closed: bytes read before closeStream whose read has not been reported yet
 	flow             outflow // limits writing from Handler to client
 	inflow           inflow  // what the client is allowed to POST/etc to us
 	state            streamState
@@ -1603,7 +1605,14 @@ func (sc *serverConn) closeStream(st *stream, err error) {
 	if p := st.body; p != nil {
 		// Return any buffered unread bytes worth of conn-level flow control.
 		// See golang.org/issue/16481
-		sc.sendWindowUpdate(nil, p.Len())
+		unread := p.Len()
+		sc.sendWindowUpdate(nil, unread)
+
+		// The handler can still read those bytes after CloseWithError and
+		// reports every read to noteBodyRead. Only reads that happened
+		// before this point and have not been reported yet still have
+		// conn-level flow control to return.
+		st.connRefundLeft = max(st.bodyBytes-int64(unread)-st.bodyRead, 0)
 
 		p.CloseWithError(err)
 	}
@@ -2429,6 +2438,13 @@ func (sc *serverConn) noteBodyReadFromHandler(st *stream, n int, err error) {
 
 func (sc *serverConn) noteBodyRead(st *stream, n int) {
 	sc.serveG.check()
+	st.bodyRead += int64(n)
+	if st.state == stateClosed {
+		// closeStream has already returned the flow control of everything
+		// that was still buffered at that time.
+		n = int(min(int64(n), st.connRefundLeft))
+		st.connRefundLeft -= int64(n)
+	}
 	sc.sendWindowUpdate(nil, n) // conn-level
 	if st.state != stateHalfClosedRemote && st.state != stateClosed {
 		// Don't send this WINDOW_UPDATE if the stream is closed
